@@ -270,23 +270,30 @@ Definition doc_score (c : cfg) (now : N) (g : ghost) (cands : list key) (k : key
 Definition is_minimiser (c : cfg) (now : N) (g : ghost) (cands : list key) (k : key) : bool :=
   forallb (fun x => doc_score c now g cands k <=? doc_score c now g cands x) cands.
 
-(* evict the removed keys one at a time, each time one that minimises the score among
-   the keys still competing *)
-Fixpoint evict_seq (fuel : nat) (c : cfg) (now : N) (g : ghost) (cands rem : list key) : bool :=
-  match rem with
+(* the removed keys can be put in an order in which each one, when its turn comes,
+   minimises the score among the keys still competing (ties broken arbitrarily) *)
+Fixpoint evict_order_ok (c : cfg) (now : N) (g : ghost) (cands order : list key) : bool :=
+  match order with
   | [] => true
-  | _ =>
-      match fuel with
-      | O => false
-      | S fuel' =>
-          match find (fun r => is_minimiser c now g cands r) rem with
-          | None => false
-          | Some r =>
-              let drop := filter (fun x => negb (N.eqb x r)) in
-              evict_seq fuel' c now g (drop cands) (drop rem)
-          end
-      end
+  | r :: rest =>
+      inb r cands && is_minimiser c now g cands r
+      && evict_order_ok c now g (filter (fun x => negb (N.eqb x r)) cands) rest
   end.
+
+Fixpoint insert_all (x : key) (l : list key) : list (list key) :=
+  match l with
+  | [] => [[x]]
+  | y :: l' => (x :: l) :: map (cons y) (insert_all x l')
+  end.
+
+Fixpoint perms (l : list key) : list (list key) :=
+  match l with
+  | [] => [[]]
+  | x :: l' => flat_map (insert_all x) (perms l')
+  end.
+
+Definition evict_seq (c : cfg) (now : N) (g : ghost) (cands rem : list key) : bool :=
+  existsb (evict_order_ok c now g cands) (perms rem).
 
 Definition c08_step (c : cfg) (g : ghost) (idx : N) (o : obs) : bool :=
   match store_key (ob_op o), counts_hits (pol c) with
@@ -301,7 +308,7 @@ Definition c08_step (c : cfg) (g : ghost) (idx : N) (o : obs) : bool :=
           if is_async c then filter (fun x => negb (N.eqb x k)) pre
           else if inb k pre then pre else k :: pre in
         let rem := if is_async c then removed_others o else removed o in
-        evict_seq (S (length rem)) c (ob_now o) g' cands rem
+        evict_seq c (ob_now o) g' cands rem
   | _, _ => true
   end.
 
